@@ -26,6 +26,7 @@ inductive Family | text | graphics
 deriving DecidableEq, Repr
 
 inductive Err | zeroDivisionError | typeError | valueError | termImageError | mixed
+  | fileNotFoundError | invalidSizeError | runtimeError
 deriving DecidableEq, Repr
 
 /-- everything outside the image that sizing reads -/
@@ -263,6 +264,23 @@ structure State where
   env : Env
 deriving DecidableEq, Repr
 
+/-- what an operation lets the caller observe: an exception, nothing, or (for `render`) the
+    size the renderer ran with -/
+inductive Obs | err (e : Err) | done | rendered (w h : Nat)
+deriving DecidableEq, Repr
+
+/-- where a render attempt fails, if it does: in `_get_image()` (the source file cannot be opened
+    at that moment) or in the renderer function itself -/
+inductive RFail | none | source | renderer
+deriving DecidableEq, Repr
+
+/-- what a render attempt that got past the size preparation lets the caller observe -/
+def rfailObs (fail : RFail) (w h : Nat) : Obs :=
+  match fail with
+  | .none => .rendered w h
+  | .source => .err .fileNotFoundError
+  | .renderer => .err .runtimeError
+
 inductive Op
   | setSize (width height : SArg) (frame : Int × Int)   -- image.set_size(width, height, frame)
   | sizeDyn (s : Size)                                  -- image.size = Size.X
@@ -273,17 +291,13 @@ inductive Op
   | setCell (c : Option (Nat × Nat))                    -- the cell size (as queried) changes
   | setRatio (a : RatioArg)                             -- set_cell_ratio(a)
   | render                                              -- image._renderer(f): f sees the size in effect
+  | renderWith (check scroll : Bool) (fail : RFail)     -- image._renderer(f, check_size=…, scroll=…), possibly failing
 deriving Repr
 
 /-- is this an operation by which the *caller* sets the image size? -/
 def Op.isSet : Op → Bool
   | .setSize .. | .sizeDyn _ | .sizeTuple .. | .setWidth _ | .setHeight _ => true
   | _ => false
-
-/-- what an operation lets the caller observe: an exception, nothing, or (for `render`) the
-    size the renderer ran with -/
-inductive Obs | err (e : Err) | done | rendered (w h : Nat)
-deriving DecidableEq, Repr
 
 def applySet (st : State) (r : Except Err Stored) : State × Obs :=
   match r with
@@ -312,6 +326,19 @@ def step (fam : Family) (ori : Nat × Nat) (st : State) (op : Op) : State × Obs
       | .error e => ({ st with size := .dynamic s }, .err e)
       | .ok (.fixed w h) => ({ st with size := .dynamic s }, .rendered w h)
       | .ok (.dynamic _) => ({ st with size := .dynamic s }, .done)   -- unreachable: set_size stores a pair
+  | .renderWith check scroll fail =>
+    -- the whole of `_renderer`: a dynamic size is prepared with `set_size(_size)` and needs no
+    -- validation; a fixed size is validated when `check_size` (the height only when not `scroll`);
+    -- then `_get_image()`, then the renderer; `finally: self.size = _size` for a dynamic size
+    match st.size with
+    | .fixed w h =>
+      if check && (decide (st.env.cols < w) || (!scroll && decide (st.env.lines < h))) then (st, .err .invalidSizeError)
+      else (st, rfailObs fail w h)
+    | .dynamic s =>
+      match setSize fam st.env ori (.sz s) .none defaultFrame with
+      | .error e => ({ st with size := .dynamic s }, .err e)
+      | .ok (.fixed w h) => ({ st with size := .dynamic s }, rfailObs fail w h)
+      | .ok (.dynamic _) => ({ st with size := .dynamic s }, .done)
 
 def run (fam : Family) (ori : Nat × Nat) : State → List Op → State
   | st, [] => st
